@@ -325,7 +325,11 @@ func dirTemplateHistoryCase(col *Collector, parallelStages bool, k int) {
 	col.Add(cs)
 }
 
-func taskNameCase(col *Collector, k int, withCtx bool) {
+func taskNameCase(col *Collector, k int, withCtx bool) { taskNameCaseHooks(col, k, withCtx, false) }
+
+// slowHooks: every task also has a condition and a before hook that take a while (what a task sees as TASK_NAME must
+// not depend on what other tasks are doing while its own condition or hooks run)
+func taskNameCaseHooks(col *Collector, k int, withCtx, slowHooks bool) {
 	dir := newScratchDir("c09t")
 	defer os.RemoveAll(dir)
 	var b strings.Builder
@@ -338,6 +342,9 @@ func taskNameCase(col *Collector, k int, withCtx bool) {
 		if withCtx && i%2 == 0 {
 			b.WriteString("    context: cx\n")
 		}
+		if slowHooks {
+			fmt.Fprintf(&b, "    condition: 'sleep 0.%d'\n    before: ['sleep 0.%d']\n", 2+i%3, 1+i%2)
+		}
 		fmt.Fprintf(&b, "    command:\n      - 'sleep 0.3; echo \"RESULT who=job%d TN=[$TASK_NAME]\"'\n      - 'echo \"RESULT who=job%d TN=[$TASK_NAME]\"'\n", i, i)
 	}
 	b.WriteString("pipelines:\n  p:\n")
@@ -346,7 +353,7 @@ func taskNameCase(col *Collector, k int, withCtx bool) {
 	}
 	os.WriteFile(filepath.Join(dir, "tasks.yaml"), []byte(b.String()), 0644)
 	res := runTaskctl(dir, nil, 30*time.Second, "--output", "raw", "p")
-	cs := Case{Replay: fmt.Sprintf("task-name k=%d ctx=%v (config: %s)", k, withCtx, strings.ReplaceAll(b.String(), "\n", "\\n")), Tags: []string{"task-name-parallel", fmt.Sprintf("k=%d", k)}, NonTrivial: true}
+	cs := Case{Replay: fmt.Sprintf("task-name k=%d ctx=%v slow-condition-and-hook=%v (config: %s)", k, withCtx, slowHooks, strings.ReplaceAll(b.String(), "\n", "\\n")), Tags: []string{"task-name-parallel", fmt.Sprintf("k=%d", k)}, NonTrivial: true}
 	seen := 0
 	// concurrent raw writers can share a line: match the records, not the lines
 	for _, m := range taskNameRec.FindAllStringSubmatch(res.stdout, -1) {
@@ -443,6 +450,7 @@ func runC09(col *Collector, tier string, seed int64) {
 	for _, k := range []int{2, 3, 6} {
 		taskNameCase(col, k, false)
 		taskNameCase(col, k, true)
+		taskNameCaseHooks(col, k, k%2 == 0, true)
 	}
 	for _, k := range []int{2, 3} {
 		dirTemplateHistoryCase(col, false, k)
